@@ -343,6 +343,9 @@ def worker(case: Dict[str, Any]) -> CaseResult:
     spec.objects["VfAvatar"] = ([], [Field("vfUrl", "String", [Arg("size", "Int!"), Arg("format", "String")]), Field("vfId", "ID!")])
     spec.objects["VfPhoto"] = ([], [Field("vfUrl", "String", [Arg("size", "VfSize!"), Arg("format", "ID!")]), Field("vfId", "ID!")])
     spec.objects[spec.roots["query"]][1].extend([Field("vfAvatar", "VfAvatar"), Field("vfPhoto", "VfPhoto", [Arg("size", "Float")])])
+    # ... and whose same-named field returns the same object type with different argument lists
+    spec.objects["VfAvatar"][1].append(Field("vfOwner", "VfUser", [Arg("first", "Int"), Arg("after", "String")]))
+    spec.objects["VfPhoto"][1].append(Field("vfOwner", "VfUser", [Arg("first", "Int!"), Arg("after", "ID"), Arg("shuffle", "Boolean")]))
     spec.objects[spec.roots["query"]][1].extend([Field("vfSearch", "[VfSearch!]!", [Arg("text", "String")]), Field("vfNodes", "[VfNode!]!")])
     sdl = case.get("_sdl") or spec.sdl()
     schema_ref = build_schema(sdl)
